@@ -99,15 +99,28 @@ HOSTILE = ("#[allow(unused_macros)] macro_rules! assert { ($($t:tt)*) => { () };
            "#[allow(unused_macros)] macro_rules! unreachable { ($($t:tt)*) => { () }; }\n")
 
 
+# ... and it has modules of its own called `core` and `std` at the crate root: a path written as `core::..` / `std::..` in a
+# macro body (instead of `$crate::__::..`) resolves there and no longer compiles.  The generated program's own paths are
+# written `::core::..` / `::std::..` (done here, textually).
+HOSTILE_MODS = "#[allow(unused)] mod core {}\n#[allow(unused)] mod std {}\n"
+
+
 def hostile(source):
-    """inserts the shadowing macros after the leading inner attributes of a generated program"""
-    if "macro_rules! assert " in source:
+    """inserts the shadowing macros and modules after the leading inner attributes of a generated program"""
+    import re
+    add = []
+    if "macro_rules! assert " not in source:
+        add.append(HOSTILE)
+    if not re.search(r"(?m)^\s*(#\[[^\]]*\]\s*)?(pub\s+)?mod core\b", source):
+        source = re.sub(r"(?<![\w:$])(std|core)::", r"::\1::", source)
+        add.append(HOSTILE_MODS)
+    if not add:
         return source
     lines = source.split("\n")
     i = 0
     while i < len(lines) and (lines[i].strip() == "" or lines[i].lstrip().startswith("#![") or lines[i].lstrip().startswith("//")):
         i += 1
-    return "\n".join(lines[:i] + [HOSTILE] + lines[i:])
+    return "\n".join(lines[:i] + add + lines[i:])
 
 
 def write_bin(name, source):
@@ -168,7 +181,8 @@ def rustc_verdicts(sources, jobs=16, timeout=120, extra=()):
         i, src = i_src
         path = os.path.join(work, "p%05d.rs" % i)
         with open(path, "w", encoding="utf8") as f:
-            f.write(src)
+            # every program compiled alone sits in the same hostile calling crate as the batched ones
+            f.write(hostile(src))
         cmd = ["rustc", "--edition", "2021", "--crate-type", "lib", "--emit=metadata", "-A", "warnings",
                "--extern", "konst=" + rlib, "-L", "dependency=" + deps_dir(),
                "-o", os.path.join(work, "p%05d.rmeta" % i), path] + list(extra)
